@@ -10,8 +10,32 @@ RULE = ("generated op programs (makedir/create/open/write/truncate/remove/remove
 ORACLES = tuple("io_bounds".split(","))
 
 
+def auto_size_cases(ctx):
+    """volumes made by mkfs WITHOUT a size argument on a device at a non-zero offset (the size is taken from the device), then filled until
+    every request is refused: the volume must end where the device ends (C08-m4)"""
+    from .. import core, fatspec, history
+    out = []
+    for ft, size, off, kw in ((12, 300 * 1024, 65536, {}), (16, 9000 * 512, 1536, {}), (12, 200 * 2048, 4096, dict(sector_size=2048))):
+        try:
+            dev, pf = core.mkfs_image(ft, size, offset=off, auto_size=True, **kw)
+        except Exception as e:  # noqa
+            ctx.notes.append(f"mkfs without size refused FAT{ft} {size}: {e}")
+            continue
+        img = dev.volume()
+        try:
+            v = fatspec.Volume(img)
+            bpc, count = v.bpc, min(v.count, 700)
+        except Exception:  # noqa  (a volume larger than its device: the program still runs, the guarded device reports the writes)
+            import struct
+            bps, spc = struct.unpack_from("<HB", img, 11)
+            bpc, count = bps * spc, 700
+        out.append(history.Case(f"mkfs{ft}-auto-size@{off}", img, _hist.fill_program(bpc, count), mount=dict(encoding="ibm437", offset=off),
+                                meta=dict(source="mkfs", ft=ft, size=size, size_argument=None, offset=off, **kw)))
+    return out
+
+
 def run(ctx):
-    _hist.run_histories(ctx, ORACLES, nprog=ctx.scale(24, 400), nops=ctx.scale(30, 80), remount_every=False,
+    _hist.run_histories(ctx, ORACLES, nprog=ctx.scale(24, 400), nops=ctx.scale(30, 80), remount_every=False, extra_cases=auto_size_cases(ctx),
                         mounts=[dict(encoding="ibm437", offset=0), dict(encoding="ibm437", offset=4096, lazy_load=False), dict(encoding="cp850", offset=1536)])
 
 
